@@ -873,7 +873,27 @@ def rule_foreign_errors(ctx: Ctx, rep: Report) -> None:
     rep.floor("C08.foreign_errors", 2)
 
 
+def rule_sighash_messages(ctx: Ctx, rep: Report) -> None:
+    """C08.sighash_messages: the engine's verdict on a signature is the verdict on
+    the message it hashes: the BIP341 / BIP143 / legacy case splits of C09 and
+    the annex handling are reported here too -- two parts of the taproot message
+    written in the other order refuse every annex-carrying SIGHASH_SINGLE spend
+    Core accepts."""
+    from rules import C09
+    n = 0
+    for fn, name in ((C09.rule_bip341, "bip341"), (C09.rule_bip143, "bip143"), (C09.rule_annex_whole, "annex_whole")):
+        tmp = Report("C09", rep.tier)
+        tmp.quiet = True
+        fn(ctx, tmp)
+        for o in tmp.obs:
+            n += 1
+            rep.ob("C08.sighash_messages", f"{name}:{o.instance}", o.held, o.site, o.detail)
+    rep.floor("C08.sighash_messages", 20)
+
+
 RULES = [
+    ("C08.sighash_messages", rule_sighash_messages),
+
     ("C08.sticky_flags", rule_sticky_flags_),
     ("C08.der_shape_only", rule_der_shape_only),
     ("C08.key_encoding_always_judged", rule_key_encoding_always_judged),
